@@ -410,6 +410,10 @@ def batch(rec, rng, cid, scratch, cfg):
     from nanite.cli import profile, rating
     from nanite import IndentationGroup
     import afmformats
+    if json.loads(cfg.read_text()).get("model_key") == "sneddon_spher":
+        # third-party iterative model (separate package): minutes per curve
+        rec.event("batch fits skipped (third-party iterative model: cost)")
+        return
     folder = make_folder(rng, scratch, cid)
     out = scratch / ("out_%d_%d" % tuple(cid))
     out.mkdir()
